@@ -1,4 +1,80 @@
-import GristModel.DocSpec
+/-
+C03  Redo after undo reproduces the post-bundle state.
+
+A bundle of doc actions `as` is applied (`runActs`, collecting the undo actions `u`), undone by
+replaying `u` reversed, and redone by re-applying the stored actions `as`: the result shows the
+same as the post-bundle document.
+
+Hypotheses as in C01 (`Normal`, `colsDistinct`, `undoExactRun`: the undo must restore the
+pre-bundle document, see the counterexamples in GristProps/C01.lean); hence `_partial`.
+-/
+import GristProps.C01
+import GristProofs.DocRedo
 namespace Grist.Doc
-theorem placeholder_C03 : True := trivial
+
+theorem redo_after_undo_partial {as : List DocAction} {d d' : Doc} {u : List DocAction}
+    (hwf : WF d) (hn : Normal d) (hargs : ∀ a ∈ as, a.rowsPositive ∧ a.colsDistinct)
+    (hex : undoExactRun d as) (h : runActs d as = .ok (d', u)) :
+    ∃ d'' d''', applyAll d' u.reverse = .ok d'' ∧ applyAll d'' as = .ok d''' ∧ Same d''' d' := by
+  obtain ⟨d'', d''', h1, _, _, _, h2, h3⟩ := redo_after_undo_full hwf hn hargs hex h
+  exact ⟨d'', d''', h1, h2, h3⟩
+
+/-- what `runActs` computes is what applying the stored actions computes -/
+theorem runActs_doc_eq_applyAll {as : List DocAction} {d d' : Doc} {u : List DocAction}
+    (h : runActs d as = .ok (d', u)) : applyAll d as = .ok d' :=
+  runActs_applyAll h
+
+/-- the undone document is again well formed and normalised, and shows the same as the original
+    (so the cycle undo / redo can be repeated) -/
+theorem undo_then_redo_invariants {as : List DocAction} {d d' : Doc} {u : List DocAction}
+    (hwf : WF d) (hn : Normal d) (hargs : ∀ a ∈ as, a.rowsPositive ∧ a.colsDistinct)
+    (hex : undoExactRun d as) (h : runActs d as = .ok (d', u)) :
+    ∃ d'', applyAll d' u.reverse = .ok d'' ∧ Same d'' d ∧ WF d'' ∧ Normal d'' := by
+  obtain ⟨d'', _, h1, h2, h3, h4, _, _⟩ := redo_after_undo_full hwf hn hargs hex h
+  exact ⟨d'', h1, h2, h3, h4⟩
+
+/-- engine-level form: a doc-only word run from a fresh state; `st'.stored` are the actions,
+    `st'.undo` the undo actions -/
+theorem redo_after_undo_engine_partial {d : Doc} {steps : List (DocAction × Bool)} {st' : EState}
+    (hwf : WF d) (hn : Normal d) (hargs : ∀ ab ∈ steps, ab.1.rowsPositive ∧ ab.1.colsDistinct)
+    (hex : undoExactRun d (steps.map (·.1)))
+    (h : stepDocs { doc := d } steps = .ok st') :
+    ∃ d'' d''', applyAll st'.doc st'.undo.reverse = .ok d'' ∧ applyAll d'' st'.stored = .ok d''' ∧
+      Same d''' st'.doc := by
+  obtain ⟨u, hrun, hu, hs, _⟩ := stepDocs_ok h
+  have hargs' : ∀ a ∈ steps.map (·.1), a.rowsPositive ∧ a.colsDistinct := by
+    intro a ha
+    obtain ⟨ab, hab, rfl⟩ := List.mem_map.1 ha
+    exact hargs ab hab
+  simp only [List.nil_append] at hu hs
+  rw [hu, hs]
+  exact redo_after_undo_partial hwf hn hargs' hex hrun
+
+/-! ### the example of C01 -/
+
+example : ∃ d' u d'' d''', runActs exDoc exActs = .ok (d', u) ∧ u.length = 6 ∧
+    applyAll d' u.reverse = .ok d'' ∧ applyAll d'' exActs = .ok d''' ∧ Same d''' d' := by
+  have h : runActs exDoc exActs = .ok (_, _) := rfl
+  obtain ⟨d'', d''', h1, h2, h3⟩ := redo_after_undo_partial exDoc_WF exDoc_Normal exActs_args
+    (undoExactRun_of_safe exActs_safe exDoc) h
+  exact ⟨_, _, d'', d''', h, rfl, h1, h2, h3⟩
+
+example : ∃ st' d'' d''', stepDocs { doc := exDoc } (exActs.map (·, true)) = .ok st' ∧
+    st'.stored = exActs ∧
+    applyAll st'.doc st'.undo.reverse = .ok d'' ∧ applyAll d'' st'.stored = .ok d''' ∧
+    Same d''' st'.doc := by
+  have h : stepDocs { doc := exDoc } (exActs.map (·, true)) = .ok _ := rfl
+  have hargs : ∀ ab ∈ exActs.map (·, true), ab.1.rowsPositive ∧ ab.1.colsDistinct := by
+    intro ab hab
+    obtain ⟨a, ha, rfl⟩ := List.mem_map.1 hab
+    exact exActs_args a ha
+  have hex : undoExactRun exDoc ((exActs.map (·, true)).map (·.1)) := by
+    apply undoExactRun_of_safe
+    intro a ha
+    simp only [List.map_map, List.mem_map, Function.comp_apply] at ha
+    obtain ⟨b, hb, rfl⟩ := ha
+    exact exActs_safe b hb
+  obtain ⟨d'', d''', h1, h2, h3⟩ := redo_after_undo_engine_partial exDoc_WF exDoc_Normal hargs hex h
+  exact ⟨_, d'', d''', h, rfl, h1, h2, h3⟩
+
 end Grist.Doc
